@@ -24,6 +24,7 @@
 EXTENDS Naturals, Sequences, FiniteSets, SequencesExt, TLC
 
 CONSTANTS Known,        \* registered configurables: set of [sel, params, deny]
+          Ambiguous,    \* names that match several registered configurables (they are known - never skipped - and rejected)
           Modules,      \* importable module names
           Templates,    \* statements a file may contain
           FileNames,    \* names of the files that exist in the model ("root" is parsed)
@@ -51,8 +52,8 @@ ConfOf(sel) == CHOOSE k \in Known : k.sel = sel
 
 ------------------------------------------------------------------------------
 (* skip_unknown *)
-ShouldSkip(sel, sk) ==          \* _should_skip (839-846): never skip a known name
-  IF sel \in KnownSels THEN FALSE
+ShouldSkip(sel, sk) ==          \* _should_skip (839-846): never skip a known name (a name matching several is known)
+  IF sel \in KnownSels \cup Ambiguous THEN FALSE
   ELSE IF sk.mode = "false" THEN FALSE
   ELSE IF sk.mode = "true" THEN TRUE
   ELSE sel \in sk.names
@@ -61,13 +62,15 @@ ShouldSkip(sel, sk) ==          \* _should_skip (839-846): never skip a known na
 \* and is an error otherwise (855-859, 708-715)
 StoredVal(v, sk) ==
   IF v[1] # "ref" THEN <<"ok", v>>
+  ELSE IF v[2] \in Ambiguous THEN <<"KeyError", v>>            \* SelectorMap.get_match: ambiguous selector
   ELSE IF v[2] \in KnownSels THEN <<"ok", v>>
   ELSE IF ShouldSkip(v[2], sk) THEN <<"ok", <<"unk", v[2]>>>>
   ELSE <<"ValueError", v>>
 
 \* validation of a binding key (889-948)
 KeyVerdict(sel, param) ==
-  IF sel \notin KnownSels THEN "ValueError"
+  IF sel \in Ambiguous THEN "KeyError"
+  ELSE IF sel \notin KnownSels THEN "ValueError"
   ELSE IF param \notin ConfOf(sel).params THEN "ValueError"
   ELSE IF param \in ConfOf(sel).deny THEN "ValueError"
   ELSE "ok"
@@ -149,6 +152,7 @@ ParseDoc(st, doc, k, line, sk, file, fuel) ==
            IF bad # {}
            THEN Done(st, "ValueError", << <<file, line + (CHOOSE j \in bad : \A i \in bad : j <= i)>> >>, <<>>, <<>>)
            ELSE IF ShouldSkip(s.sel, sk) THEN rest(st, <<>>, <<>>)              \* header and members dropped
+           ELSE IF s.sel \in Ambiguous THEN Done(st, "KeyError", << <<file, line>> >>, <<>>, <<>>)
            ELSE IF s.sel \notin KnownSels THEN Done(st, "ValueError", << <<file, line>> >>, <<>>, <<>>)   \* 2380-2384
            ELSE LET r == BlockMembers(st, s, s.members, 1, sk, file, line) IN
                 IF r.status # "ok" THEN Done(r.st, r.status, << <<file, r.line>> >>, <<>>, <<>>) ELSE rest(r.st, <<>>, <<>>)
@@ -221,6 +225,7 @@ ApplyFlat(st, e, sk) ==
            IF bad # {} THEN [st |-> st, status |-> "ValueError",
                              chain |-> << <<e.file, e.line + (CHOOSE j \in bad : \A i \in bad : j <= i)>> >> \o e.via]
            ELSE IF ShouldSkip(s.sel, sk) THEN [st |-> st, status |-> "ok", chain |-> <<>>]
+           ELSE IF s.sel \in Ambiguous THEN [st |-> st, status |-> "KeyError", chain |-> << <<e.file, e.line>> >> \o e.via]
            ELSE IF s.sel \notin KnownSels THEN [st |-> st, status |-> "ValueError", chain |-> << <<e.file, e.line>> >> \o e.via]
            ELSE LET r == BlockMembers(st, s, s.members, 1, sk, e.file, e.line) IN
                 [st |-> r.st, status |-> r.status, chain |-> << <<e.file, r.line>> >> \o e.via]
